@@ -499,6 +499,8 @@ def make_frame(data=None, index=None, columns=None, **kw):
             cols[l] = v
             n = v.n if n is None else n
         return Frame(labels, cols, n)
+    if hasattr(data, 'sym_rows_frame'):
+        return data.sym_rows_frame(columns)
     if isinstance(data, (list, PyList)) and len(data) == 1 and isinstance(data[0], ConcArr) and columns is not None:
         vals = data[0].data
         if len(vals) != len(columns):
